@@ -1,5 +1,5 @@
 import os, sys, hashlib, itertools
-from vf import Check, Stream, hexs, VERIF, BUILD, sh
+from vf import Check, Stream, hexs, VERIF, BUILD, sh, run_exe_on_cases, log
 
 # Property C13.  One case = one history of one Server client created by Server::pair, driven between
 # run() calls (and, with `react`, from inside its callbacks) under the simulated kernel
@@ -10,10 +10,13 @@ from vf import Check, Stream, hexs, VERIF, BUILD, sh
 # outcome of the ONE send the operation may issue: wb | s<k> | full | zero | err   (further send calls of the same operation, if the
 # implementation makes any, are answered would-block by the simulated kernel, marked `!unscripted`)
 # mask: letters of i(EPOLLIN) o(EPOLLOUT) h(EPOLLHUP) d(EPOLLRDHUP) e(EPOLLERR), or -
-# A case whose first line is `@two` has TWO clients A and B of the same Server: every client operation may carry the
-# prefix `A.` / `B.` (default A), callbacks are `A.onRead` ..., and
-#   evs <A:mask,B:mask> <outcome>*   is one run() whose single epoll round reports these clients in this order; the
+# A case whose first line is `@two` / `@three` / `@four` has that many clients A, B, C, D of the same Server: every client
+# operation may carry the prefix `A.` .. `D.` (default A), callbacks are `A.onRead` ..., and
+#   evs <A:mask,B:mask,..> <outcome>*  is one run() whose single epoll round reports these clients in this order; the
 #                                    outcomes answer the send calls of the run in order
+#   evsi <A:mask,..> <outcome>*      the same round, the interrupt reported in the SAME epoll batch: the events stay cached, the
+#                                    run() returns, the next run() (tick <outcome>*) hands them out
+#   react X.onRead <op> & <op>       several operations inside ONE callback invocation
 
 
 def data(rng, n, kind=0):
@@ -97,32 +100,42 @@ class C13(Check):
     comp = 'ServerWrite'
     extracted = ['coq/ServerWrite/model.mli', 'coq/ServerWrite/model.ml', 'ocaml/zconv.ml', 'ocaml/serverwrite_driver.ml']
     harness_sources = ['harness/serverwrite.cpp', 'harness/serverwrite_kernel.cpp']
-    per_case_timeout = 20
+    per_case_timeout = 6
+    CRASH_LIMIT = 150           # harness crashes / time-outs per stream after which the rest of the stream is not run
+    HANG_BUDGET = 40            # watchdog time-outs per check run after which streams are cut at the first further one
     has_spec = False            # the property oracle is the monitor (judge), not a line-by-line reference observation
     level_text = ('Theorems in Coq about a model of one Server client (ClientImpl::write/read/suspend/resume, the client part of the '
                   'dispatch in Server::Private::run, Poll::set/remove and the epoll event mapping incl. EPOLLRDHUP/EPOLLERR) and about a '
-                  'model of TWO clients sharing the Server\'s Socket::Poll (epoll variant: the cache of events collected by one '
-                  'epoll_wait and handed out one per poll() call, pruned by Poll::set/remove) and its closing-clients set, for EVERY '
-                  'history: the answer of the operating system to every send (would-block, any partial count, full, 0, error) and the '
-                  'readiness reported by every poll round are inputs of the steps. Proved: bytes handed to the OS ++ backlog = '
+                  'model of ANY NUMBER of clients (a list indexed by nat) sharing the Server\'s Socket::Poll (epoll variant: the cache of '
+                  'events collected by one epoll_wait and handed out one per poll() call, pruned by Poll::set/remove wherever the entry '
+                  'stands) and its closing-clients set, for EVERY history: the answer of the operating system to every send (would-block, '
+                  'any partial count, full, 0, error) and the readiness reported by every poll round (which clients, in which order) are '
+                  'inputs of the steps. Proved: bytes handed to the OS ++ backlog = '
                   'concatenation in call order of the writes that returned true; peer bytes ++ bytes in flight = bytes handed to the OS; '
                   'postponed / getSendBufferSize = accepted - handed over; onWrite in a step iff that step hands the whole non-empty '
                   'backlog over (at most one callback per step); every event reporting the client writable offers the backlog to the '
                   'OS whether or not it is also readable, and the backlog drains within |backlog| such events with exactly one onWrite; '
                   'the dispatch rule of the code before fixes/C13/01 starves the backlog forever (theorem with witness); a suspended '
-                  'client gets no onRead - for one client and for two clients, i.e. also when its read readiness was already collected '
-                  'in the poll round in which another client\'s callback suspends it (the cache never holds an event kind its client is '
-                  'not registered for at that moment); interest set invariant; the one-client model is the two-client model restricted '
-                  'to client A; both models refine exact reference objects (one predicted observation per operation); every history of '
-                  'either model is accepted by the PROPERTY MONITOR (ServerWriteMonitor.v), the reading of the property text as a set of '
-                  'per-client event traces: (stream) whatever the OS takes is the front of the queue of accepted-and-not-yet-handed-over '
-                  'bytes, (size) every reported postponed / getSendBufferSize equals the length of that queue, (onWrite) only when the '
-                  'queue is empty, once per backlog, and not later than the end of the run() in which the backlog drained, (progress) a '
-                  'backlog whose socket the kernel finds writable is offered to the OS within two run() calls, (suspended) no onRead '
-                  'between suspend() and resume(), (peer) the peer reads exactly what the OS took. The IMPLEMENTATION IS JUDGED BY THAT '
+                  'client gets no onRead - for one client and for n clients, i.e. also when its read readiness was already collected '
+                  'in the poll round in which another client\'s callback suspends it, at whatever position of the cache (the cache never '
+                  'holds an event kind its client is not registered for at that moment); interest set invariant; the one-client model is '
+                  'the n-client model restricted to client 0; both models refine exact reference objects (one predicted observation per '
+                  'operation); every history of either model is accepted by the PROPERTY MONITOR (ServerWriteMonitor.v), the reading of the '
+                  'property text as a set of per-client event traces: (stream) whatever the OS takes is the front of the queue of '
+                  'accepted-and-not-yet-handed-over bytes, (size) every reported postponed / getSendBufferSize equals the length of that '
+                  'queue (a reported value that is not a number is a contradiction of this clause, not an error of the check), (onWrite) '
+                  'only when the queue is empty, once per backlog, and - deadline - when the kernel finds the socket of a drained backlog '
+                  'writable the owed onWrite has arrived when the next but one run() ends, (progress) a backlog whose socket the kernel '
+                  'finds writable is offered to the OS within two run() calls, (suspended) no onRead between suspend() and resume(), '
+                  '(resumed) a client that is not suspended whose socket the kernel finds readable gets onRead within two run() calls '
+                  'unless it is suspended meanwhile or the notification served the write side (bytes taken / onWrite), (peer) the peer '
+                  'reads exactly what the OS took. In the traces of the theorems the ends of run() calls and the getSendBufferSize probes '
+                  'stand ANYWHERE in the history, so the order in which the judge serialises what the harness observed (operations '
+                  'executed from inside a callback before the end of that run()) is an instance. The IMPLEMENTATION IS JUDGED BY THAT '
                   'MONITOR (extracted, run on the ordered event trace observed under a simulated kernel: send/epoll_ctl/epoll_wait '
-                  'interposed, peer end of a real socket pair read back) - not by predicted observations: the number and size of send '
-                  'calls, the order of callbacks of different clients, onClosed, when onRead is delivered, the return value of write (an '
+                  'interposed, peer end of a real socket pair read back; up to four clients of one Server) - not by predicted '
+                  'observations: the number and size of send '
+                  'calls, the order of callbacks of different clients, onClosed, the return value of write (an '
                   'input: it defines the accepted data) and everything after a send answered with an error/0, a peer close or a remove '
                   '(outside the text\'s quantifier; only the suspended clause stays judged) are left open, as in the text. Separately, the '
                   'models are tied to the code call by call: the extracted models and the ASan/UBSan build run the same histories and return '
@@ -130,15 +143,27 @@ class C13(Check):
                   'to the OS per operation and epoll registration masks are compared line by line (a difference there without a monitor '
                   'rejection is reported as no-failing-input-found).')
     level_note = ('partial: the kernel\'s in-order delivery of the bytes it accepted (stream socket semantics) is assumed (the model\'s wire '
-                  'is a FIFO; the harness does read the peer end of a real socket pair and compares). At most two clients; listeners, '
+                  'is a FIFO; the harness does read the peer end of a real socket pair and compares). The model has any number of '
+                  'clients, the harness drives up to four; listeners, '
                   'establishers, timers of the same loop are C14. Write sizes and backlogs are assumed < 2^31 bytes: Socket::send passes '
                   '(int)size to ::send and the model does not narrow (a backlog whose low 32 bits are 0 would be sent as 0 bytes and the '
-                  'connection given up). Oracle choices where the text gives no number: the deadline of onWrite is the end of the run() '
-                  'call in which the backlog drained; the progress bound is two run() calls after the kernel found the socket writable (a '
-                  'collected notification may be handed out by the following run()); an accepted write of 0 bytes while nothing is queued '
-                  'tolerates (does not demand) one onWrite; a send call the history has no scripted answer for is answered would-block by '
-                  'the simulated kernel and not judged. The progress clause is proved for the one-client model (one poll event = one '
-                  'run()); for two clients it is checked on the implementation only. Choices where the property text is silent and the '
+                  'connection given up). Oracle choices where the text gives no number (all three deadlines are the oracle\'s, the text '
+                  'says "once" / "until" without a bound): a run() is one that returns after the kernel reported the interrupt (the harness '
+                  'interrupts before every run(); a run() cut short by an event without flags is not counted); onWrite of a drained '
+                  'backlog is due two run() calls after the kernel next finds the socket writable (an implementation may notice the '
+                  'empty queue only at that report - but an implementation that loses the onWrite when suspend()/resume() is called '
+                  'between the drain and that report is rejected: the onWrite never comes); progress and resumed are due two run() calls '
+                  'after the kernel found the socket writable / readable (a collected notification may be handed out by the following '
+                  'run(), e.g. when the interrupt is reported in the same epoll batch); a readable report served by the write side (bytes '
+                  'of the backlog taken, onWrite) starts the resumed clause again instead of failing it (the code delivers onWrite OR '
+                  'onRead per notification; the input is reported again, level-triggered); an accepted write of 0 bytes while nothing is '
+                  'queued tolerates (does not demand) one onWrite; a write of 0 bytes that the implementation turns into send(fd, p, 0) '
+                  'answered 0 is an input like any write that returns false (no fault: the connection stays judged); a send call the '
+                  'history has no scripted answer for is answered would-block by '
+                  'the simulated kernel and not judged. The deadline clauses (onWrite deadline, progress, resumed) are proved for the '
+                  'one-client model (one poll event = one poll of a run()); the n-client trace of the theorem is the judge\'s trace '
+                  'without the kernel-asked events (wr / rd), so for several clients the deadline clauses are checked on the '
+                  'implementation only. Choices where the property text is silent and the '
                   'reference OBJECT / model (not the oracle) follow the code: a write '
                   'of 0 bytes on a connection without backlog issues send(fd, p, 0), whose result 0 is treated as "connection closed" '
                   '(write returns false, onClosed follows) - DESIGN 5 lists this as outside the statements, not patched; a hang-up '
@@ -149,16 +174,21 @@ class C13(Check):
                   'revoke parts (never add). Validated by correspondence only: that Server.cpp/Socket.cpp behave as the models '
                   '(differential, simulated kernel; the order in which a real kernel reports several ready descriptors is an input); '
                   'Buffer internals are C08. Modelled as input: every send result, every epoll readiness report, peer behaviour, order '
-                  'of application calls. Trusted: Coq kernel, extraction + OCaml driver, harness + interposed kernel.')
+                  'of application calls. Would-block is always EAGAIN and a send error always ECONNRESET in the simulated kernel. '
+                  'Trusted: Coq kernel, extraction + OCaml driver, harness + interposed kernel.')
     technique = ('Coq proof (invariant + induction over histories + refinement to a reference object + acceptance by the property monitor) ; '
                  'extracted property monitor on the implementation\'s event trace + differential model correspondence under a simulated kernel')
     rule = ('cases = histories of write(size, send outcome; with and without postponed pointer) / poll event(readiness mask over '
             'IN OUT HUP RDHUP ERR, send outcome) / real-epoll poll / tick / suspend / resume / read / peer write, read, close / remove, '
-            'also issued from inside callbacks; two-client cases: one epoll round reporting both clients in either order, the callback '
-            'of the first acting on the second (suspend, resume, remove, write, read); exhaustive small scopes: all histories of length '
+            'also issued from inside callbacks (one or several operations per callback invocation); two-client cases: one epoll round '
+            'reporting both clients in either order, the callback '
+            'of the first acting on the second (suspend, resume, remove, write, read); three- and four-client cases: one epoll round '
+            'reporting all clients in every order (four: 4 orders), the first callback acting on the LAST collected client, a middle one, '
+            'or both in either order, also with the interrupt reported in the same epoll batch (events handed out by the next run()); '
+            'suspend/resume sequences followed by reports of unread input (resumed clause); exhaustive small scopes: all histories of length '
             '3 (thorough: 4) over 12 (14) representative operations; write size 0..5 x every outcome x second write x every outcome of '
             'the write-ready send; every readiness mask x {backlog, none} x {suspended, not} x outcome; order x pre-state x readiness of '
-            'both clients x reaction; random histories aimed at partial counts 1, n-1, n, n+1. A case is non-trivial when the '
+            'the clients x reaction; random histories (1, 2, 3-4 clients) aimed at partial counts 1, n-1, n, n+1. A case is non-trivial when the '
             'implementation had a backlog at some point (sb>0), or got a poll event while a client was suspended, or gave a connection '
             'up; distinct = distinct op text')
     assumptions = ['stream socket: the kernel delivers the bytes it accepted from send, in order, to the peer (FIFO wire in the model)',
@@ -167,7 +197,9 @@ class C13(Check):
                    'send returns -1/EAGAIN, -1/error, 0, or 1..n (send_ret); a send of 0 bytes returns 0',
                    'every write size and backlog is < 2^31 bytes ((int)size in Socket::send is not modelled)',
                    'callbacks do not re-enter Server::run; every one-client operation calls Poll::set/remove at most once',
-                   'the harness reports every send call on a client descriptor, every callback and every reaction in real-time order (trace section t= of its lines)']
+                   'the harness reports every send call on a client descriptor, every callback, every reaction, what the kernel finds when '
+                   'epoll_wait asks it (socket writable / unread input) and whether a run() ended on the interrupt, in real-time order '
+                   '(trace section t= of its lines)']
 
     def __init__(self):
         Check.__init__(self)
@@ -179,6 +211,29 @@ class C13(Check):
         k = l.find(' ' + name + '=')
         return l[k + len(name) + 2:].split(' ')[0].split('/') if k >= 0 else []
 
+    def run_impl(self, cases, tag='impl'):
+        """a tree on which most cases crash or hang: every crash restarts the harness (vf gives up only after 400 per call) and
+        every hang costs the watchdog time - stop a stream after CRASH_LIMIT crashes (HANG_BUDGET time-outs per run) and
+        report what has been seen; the cases not run are marked `! notrun` (dropped by vf)"""
+        res, crashes = [], {}
+        step = 200
+        hangs = getattr(self, '_hangs', 0)
+        for i in range(0, len(cases), step):
+            if len(crashes) >= self.CRASH_LIMIT or hangs >= self.HANG_BUDGET:
+                res += [['! notrun'] for _ in cases[i:]]
+                log('[C13] stream %s: %d harness crashes (%d time-outs so far in this run), %d cases not run' % (tag, len(crashes), hangs, len(cases) - i))
+                break
+            r, c = run_exe_on_cases(self.exes['impl'], cases[i:i + step], os.path.join(BUILD, self.id, 'run'), tag, is_impl=True,
+                                    per_case_timeout=self.per_case_timeout,
+                                    env={'ASAN_OPTIONS': 'detect_leaks=0:abort_on_error=0:allocator_may_return_null=1:max_allocation_size_mb=2048:symbolize=0'})
+            res += r
+            for k, v in c.items():
+                crashes[i + k] = v
+                if v[0] == 'timeout':
+                    hangs += 1
+        self._hangs = hangs
+        return res, crashes
+
     def nontrivial(self, case, obs):
         backlog = any(any(v not in ('0', '-') for v in self.field(l, 'sb')) for l in obs)
         susp_ev = any(('1' in self.field(l, 'susp') and l.split(' ')[1].split('.')[-1] in ('ev', 'evs', 'poll'))
@@ -189,10 +244,18 @@ class C13(Check):
     # ---- the property oracle -------------------------------------------------------------------
     # The implementation's observations are turned into the ordered event trace of each client and judged by
     # the extracted monitor of coq/ServerWrite/ServerWriteMonitor.v (`driver monitor`): stream / size / onWrite /
-    # suspended / progress / peer - the clauses of the property text, nothing about the number or size of send
-    # calls, the order of callbacks of different clients, onClosed, or when onRead IS delivered.  The exact
+    # suspended / resumed / progress / peer - the clauses of the property text, nothing about the number or size of send
+    # calls, the order of callbacks of different clients, or onClosed.  The exact
     # call-by-call predictions (cb=, tx=, sends=, k=) are compared with the extracted MODEL only (correspondence).
-    RUN_OPS = ('ev', 'evs', 'poll', 'tick')
+    RUN_OPS = ('ev', 'evs', 'evsi', 'poll', 'tick')
+    LETTERS = 'ABCD'
+
+    @classmethod
+    def split_name(cls, name):
+        """'B.write' -> (1, 'write') ; 'write' -> (0, 'write')"""
+        if len(name) > 2 and name[1] == '.' and name[0] in cls.LETTERS:
+            return cls.LETTERS.index(name[0]), name[2:]
+        return 0, name
 
     @staticmethod
     def parse_line(l):
@@ -225,8 +288,7 @@ class C13(Check):
             """an operation that delivers no callbacks (everything but run())"""
             if f['dead']:
                 return
-            name = f['name']
-            idx, opn = (1 if name[0] == 'B' else 0, name[2:]) if name[:2] in ('A.', 'B.') else (0, name)
+            idx, opn = self.split_name(f['name'])
             tx = [('' if x == '-' else x) for x in f.get('tx', '-').split('/')]
             if opn in ('write', 'write0'):
                 data, taken = None, ''
@@ -238,8 +300,10 @@ class C13(Check):
                         if kind[0] == 't':
                             taken += tx[int(c)][:2 * int(ret)]
                             tx[int(c)] = tx[int(c)][2 * int(ret):]
-                        else:
-                            ev.append('%s %s' % ('b' if kind[0] == 'w' else 'f', c))
+                        elif kind[0] == 'f':
+                            ev.append('f %s' % c)
+                        # 'w' (a send refused inside a write call) and 'z' (a request of 0 bytes answered 0) are no events:
+                        # the write's return value and postponed count say what was accepted
                 if data is None:
                     raise ValueError('write line without W token')
                 ev.append('w %d %s %s %s %s' % (idx, data, f['r'], f['n'] if opn == 'write' else '-', taken or '-'))
@@ -269,14 +333,15 @@ class C13(Check):
             if f['trace'][:1] == ['~']:
                 pending.append(f)
                 continue
-            name = f['name']
-            opn = name[2:] if name[:2] in ('A.', 'B.') else name
+            opn = self.split_name(f['name'])[1]
             if opn not in self.RUN_OPS:
                 plain(f)
                 continue
             if f['dead']:
                 continue
             tx = [('' if x == '-' else x) for x in f.get('tx', '-').split('/')]
+            ended = False              # the run() returned after the kernel reported the interrupt (token R; X: an event
+                                       # without flags ended it while the harness's interrupt was pending - no run end for the monitor)
             for t in f['trace']:
                 if t[0] == 'S':
                     c, req, ret, kind = t[1:].split(':')
@@ -286,10 +351,14 @@ class C13(Check):
                             raise ValueError('send trace and tx= disagree')
                         ev.append('h %s %s' % (c, tx[int(c)][:n]))
                         tx[int(c)] = tx[int(c)][n:]
-                    else:
+                    elif kind[0] in 'wf':
                         ev.append('%s %s' % ('b' if kind[0] == 'w' else 'f', c))
                 elif t[0] == 'O':
                     ev.append('wr %s' % t[1:])
+                elif t[0] == 'I':
+                    ev.append('rd %s' % t[1:])
+                elif t == 'R':
+                    ended = True
                 elif t[0] == 'C':
                     c, cbn = t[1:].split(':')
                     ev.append('cb %s %s' % (c, cbn))
@@ -298,7 +367,8 @@ class C13(Check):
                         raise ValueError('reaction marker without a line')
                     plain(pending.pop(0))
             sizes(f)
-            ev.append('re')
+            if ended:
+                ev.append('re')
         if pending:
             raise ValueError('line of a reaction without its marker')
         return ev
@@ -306,10 +376,11 @@ class C13(Check):
     CLAUSES = {
         'stream': 'bytes handed to the operating system are not the next accepted bytes in call order (lost / duplicated / reordered / from a rejected write)',
         'size': 'reported postponed / send-buffer size differs from accepted bytes not yet handed to the operating system',
-        'onWrite': 'onWrite while bytes are still queued, a second time for one backlog, without a backlog, or missing when the run() in which the backlog drained returns',
+        'onWrite': 'onWrite while bytes are still queued, a second time for one backlog, without a backlog, or still missing two run() calls after the kernel found the drained socket writable',
         'suspended': 'onRead delivered to a suspended client',
         'progress': 'a backlog reported writable was not offered to the operating system within two run() calls',
         'peer': 'the peer did not read exactly the bytes handed to the operating system',
+        'resumed': 'a client that is not suspended got no onRead within two run() calls although the kernel found unread input on its socket',
     }
 
     def monitor(self, traces, tag='mon'):
@@ -355,11 +426,13 @@ class C13(Check):
             v = ver.get(i)
             if v is None:
                 fails.append((i, 0, '[monitor gave no verdict]'.ljust(82, '.')))
+            elif v[0] != 'ok' and v[2] == 'malformed':
+                fails.append((i, 0, '[harness output not well-formed]'.ljust(82, '.') + ' event #%s of the trace is not readable' % v[1]))
             elif v[0] != 'ok':
                 k, clause, c = int(v[1]), v[2], int(v[3])
                 ctx = ' ; '.join(e if len(e) < 90 else e[:80] + '…' for e in traces[i][max(0, k - 5):k + 1])
                 fails.append((i, k, ('[property clause `%s` contradicted]' % clause).ljust(82, '.') +
-                              ' client %s: %s. Rejected event #%d, trace so far: … %s' % ('AB'[c], self.CLAUSES.get(clause, clause), k, ctx)))
+                              ' client %s: %s. Rejected event #%d, trace so far: … %s' % (self.LETTERS[c], self.CLAUSES.get(clause, clause), k, ctx)))
         fails.sort(key=lambda x: sum(len(l) for l in cases[x[0]]))
         return fails
 
@@ -381,7 +454,7 @@ class C13(Check):
                         rest2 = rest + n2 if rest > 0 else ((n2 - (sent_of(o2, n2) or 0)) if sent_of(o2, n2) is not None else 0)
                         evs = ['wb', 'full', 'zero', 'err'] + ['s%d' % k for k in sorted(set([1, max(1, rest2 - 1), rest2, rest2 + 1]))]
                         for o3 in (evs if (thorough or n2 == 2) else ['full', 's1']):
-                            cases.append([w1, 'write %s %s' % (hexs(d2), o2), 'ev o ' + o3, 'tick', 'ev o full', 'peerread'])
+                            cases.append([w1, 'write %s %s' % (hexs(d2), o2), 'ev o ' + o3, 'tick', 'ev o full', 'tick', 'tick', 'peerread'])
         return Stream('write-matrix', cases, exhaustive=True,
                       note='write size x send outcome x second write x outcome of the write-ready send (exhaustive in the scope)')
 
@@ -400,9 +473,9 @@ class C13(Check):
                         pre.append('suspend')
                     for mask in MASKS:
                         for o in (['wb', 's1', 's2', 's3', 's4', 'full', 'zero', 'err'] if backlog else ['full']):
-                            cases.append(pre + ['ev %s %s' % (mask, o), 'ev %s full' % mask, 'tick', 'resume', 'poll full', 'peerread'])
+                            cases.append(pre + ['ev %s %s' % (mask, o), 'ev %s full' % mask, 'tick', 'resume', 'poll full', 'tick', 'tick', 'peerread'])
                             if thorough or mask in ('io', 'ioh', 'o'):
-                                cases.append(pre + ['react onRead read 1', 'ev %s %s' % (mask, o), 'poll full', 'poll s1', 'poll full', 'peerread'])
+                                cases.append(pre + ['react onRead read 1', 'ev %s %s' % (mask, o), 'poll full', 'poll s1', 'poll full', 'tick', 'tick', 'peerread'])
         return Stream('mask-matrix', cases, exhaustive=True,
                       note='readiness mask x {backlog,none} x {suspended,not} x {unread input,none} x outcome (exhaustive in the scope)')
 
@@ -413,7 +486,7 @@ class C13(Check):
         if thorough:
             alpha += ['ev o err', 'react onRead read 9']
         L = 4 if thorough else 3
-        tail = ['resume', 'ev o full', 'ev o full', 'peerread']
+        tail = ['resume', 'ev o full', 'ev o full', 'tick', 'tick', 'peerread']
         cases = [list(c) + tail for c in itertools.product(alpha, repeat=L)]
         return Stream('all-short', cases, exhaustive=True, note='all %d histories of length %d over %d representative operations' % (len(cases), L, len(alpha)))
 
@@ -484,8 +557,8 @@ class C13(Check):
                     ops.append(rng.choice(['peerclose', 'remove']))
                 else:
                     ops.append('peerread')
-            # drain and let the peer read everything
-            ops += ['resume', 'ev o full', 'ev o full', 'peerread']
+            # drain, let the deadlines of the monitor expire, and let the peer read everything
+            ops += ['resume', 'ev o full', 'ev o full', 'tick', 'tick', 'peerread']
             cases.append(ops)
         return Stream(name, cases, note=note)
 
@@ -508,7 +581,7 @@ class C13(Check):
                                 cases.append(['@two', 'A.peerwrite 11', 'B.peerwrite 22'] + pre_f + pre_o +
                                              ['react %s.onRead %s' % (F, rx), 'react %s.onWrite %s' % (F, rx),
                                               'evs %s:%s,%s:%s s1 full full' % (F, m1, O, m2),
-                                              'tick full full', '%s.resume' % O, 'evs A:io,B:io full full', 'tick full full', 'A.peerread', 'B.peerread'])
+                                              'tick full full', '%s.resume' % O, 'evs A:io,B:io full full', 'tick full full', 'tick', 'A.peerread', 'B.peerread'])
         return Stream('two-clients-one-round', cases, exhaustive=True,
                       note='order x backlog/suspended pre-state x readiness of both x what the first callback does to the other client')
 
@@ -552,9 +625,110 @@ class C13(Check):
                     ops.append(rng.choice(['%s.peerclose' % X, '%s.remove' % X]))
                 else:
                     ops.append('tick full full')
-            ops += ['tick full full', 'A.resume', 'B.resume', 'evs A:o,B:o full full', 'evs A:o,B:o full full', 'A.peerread', 'B.peerread']
+            ops += ['tick full full', 'A.resume', 'B.resume', 'evs A:o,B:o full full', 'evs A:o,B:o full full', 'tick', 'tick', 'A.peerread', 'B.peerread']
             cases.append(ops)
         return Stream('two-client-histories', cases, note='random histories of two clients of one Server; callbacks of one client act on the other')
+
+    def gen_multi_round(self, thorough):
+        """THREE (thorough: also four) clients ready in ONE poll round: while the callback of the first one runs, the cache of
+        collected notifications holds more than one entry; the callback acts on the LAST collected client, on a middle
+        one, on both in either order (several operations inside one callback invocation)"""
+        cases = []
+        for n, cfg in ((3, '@three'), (4, '@four')) if thorough else ((3, '@three'),):
+            L = self.LETTERS[:n]
+            orders = list(itertools.permutations(L)) if n == 3 else [tuple(L), tuple(reversed(L)), ('B', 'D', 'A', 'C'), ('C', 'A', 'D', 'B')]
+            for order in orders:
+                F, mid, last = order[0], order[1], order[-1]
+                reactions = ['%s.suspend' % last, '%s.remove' % last, '%s.write 0a0b wb' % last, '%s.suspend' % mid,
+                             '%s.suspend & %s.suspend' % (last, mid), '%s.suspend & %s.suspend' % (mid, last),
+                             '%s.suspend & %s.resume' % (last, last), '%s.remove & %s.suspend' % (mid, last)]
+                if thorough:
+                    reactions += ['%s.resume & %s.suspend' % (last, last), '%s.read 9 & %s.suspend' % (F, last), '%s.remove & %s.suspend' % (F, last)]
+                pres = [[], ['%s.write 0304 wb' % last], ['%s.suspend' % last, '%s.write 0506 wb' % mid]]
+                maskss = [['i'] * n, ['io'] * n, ['i', 'e'] + ['i'] * (n - 2), ['io', 'i'] + ['oh'] * (n - 2)]
+                for pre in pres:
+                    for masks in maskss:
+                        for rx in reactions:
+                            evs = ','.join('%s:%s' % (c, m) for c, m in zip(order, masks))
+                            full = ' full' * n
+                            head = [cfg] + ['%s.peerwrite %02x' % (c, 0x11 * (i + 1)) for i, c in enumerate(L)] + pre + \
+                                   ['react %s.onRead %s' % (F, rx), 'react %s.onWrite %s' % (F, rx)]
+                            tail = ['tick' + full] + ['%s.resume' % c for c in L] + \
+                                   ['evs %s%s' % (','.join('%s:io' % c for c in L), full), 'tick' + full, 'tick'] + ['%s.peerread' % c for c in L]
+                            cases.append(head + ['evs %s s1%s' % (evs, full)] + tail)
+                            if thorough or rx == reactions[0] or masks == maskss[0]:
+                                # the interrupt races with the readiness: the batch is handed out by the NEXT run()
+                                cases.append(head + ['evsi %s%s' % (evs, full), 'tick s1' + full] + tail)
+        return Stream('several-clients-one-round', cases, exhaustive=True,
+                      note='three (thorough: four) clients collected in one poll round, every order; the first callback acts on the last / a middle / both collected clients; also with the interrupt in the same epoll batch')
+
+    def gen_multi_histories(self, rng, count, fail_rate):
+        cases = []
+        for _ in range(count):
+            n = rng.choice([3, 3, 4])
+            L = self.LETTERS[:n]
+            seqs = dict((c, Seq(rng.randrange(256))) for c in L)
+            ops = ['@three' if n == 3 else '@four']
+            for _ in range(rng.randrange(4, 22)):
+                X = rng.choice(L)
+                Y = rng.choice([c for c in L if c != X])
+                r = rng.random()
+                if r < 0.22:
+                    k = rng.choice([1, 2, 3, 5, 8])
+                    o = aimed_outcome(rng, k, allow_fail=rng.random() < fail_rate)
+                    ops.append('%s.%s %s %s' % (X, 'write0' if rng.random() < 0.2 else 'write', hexs(seqs[X].take(k)), o))
+                elif r < 0.55:
+                    order = list(L)
+                    rng.shuffle(order)
+                    order = order[:rng.choice([n, n, n - 1, 2])]
+                    evs = ','.join('%s:%s' % (c, rng.choice(['i', 'o', 'io', 'io', 'io', 'ioh', 'oh', 'h', 'd', 'e', 'id'])) for c in order)
+                    outs = [aimed_outcome(rng, rng.choice([1, 2, 5]), allow_fail=rng.random() < fail_rate) for c in order] + ['full']
+                    if rng.random() < 0.15:
+                        ops.append('evsi %s %s' % (evs, ' '.join(outs)))      # (events still cached from an earlier round are handed out first)
+                        ops.append('tick %s' % ' '.join(outs))
+                    else:
+                        ops.append('evs %s %s' % (evs, ' '.join(outs)))
+                elif r < 0.62:
+                    ops.append('%s.suspend' % X)
+                elif r < 0.70:
+                    ops.append('%s.resume' % X)
+                elif r < 0.78:
+                    ops.append('%s.peerwrite %s' % (X, hexs(data(rng, rng.randrange(1, 4)))))
+                elif r < 0.82:
+                    ops.append('%s.peerread' % X)
+                elif r < 0.95:
+                    cb = rng.choice(['onRead', 'onRead', 'onWrite', 'onClosed'])
+                    Z = rng.choice(L)
+                    inner = [rng.choice(['%s.suspend' % Y, '%s.suspend' % Z, '%s.resume' % Y, '%s.read 100' % X, '%s.read 1' % Y,
+                                         '%s.write %s %s' % (Y, hexs(seqs[Y].take(2)), rng.choice(OUTCOMES_BENIGN)),
+                                         '%s.suspend' % X, '%s.remove' % Y if rng.random() < 0.4 else '%s.read 3' % X])
+                             for _ in range(rng.choice([1, 1, 2, 3]))]
+                    ops.append('react %s.%s %s' % (X, cb, ' & '.join(inner)))
+                elif rng.random() < fail_rate:
+                    ops.append(rng.choice(['%s.peerclose' % X, '%s.remove' % X]))
+                else:
+                    ops.append('tick' + ' full' * n)
+            full = ' full' * n
+            ops += ['tick' + full] + ['%s.resume' % c for c in L] + ['evs %s%s' % (','.join('%s:io' % c for c in L), full)] * 2 + \
+                   ['tick', 'tick'] + ['%s.peerread' % c for c in L]
+            cases.append(ops)
+        return Stream('several-client-histories', cases, note='random histories of three / four clients of one Server; callbacks of one client act on the others, several operations per callback')
+
+    def gen_resumed(self, thorough):
+        """read notifications come back after resume(): suspended phase x backlog x what reports the input"""
+        cases = []
+        for pre in ([], ['write 0102 wb'], ['write 0102 s1']):
+            for mid in ([], ['ev i full'], ['ev io full'], ['poll full'], ['peerwrite 0b'], ['suspend', 'resume'], ['react onRead suspend', 'ev i full', 'resume']):
+                for rep in (['poll full'], ['ev i full'], ['ev io s1'], ['ev io full'], ['ev id full']):
+                    cases.append(pre + ['suspend', 'peerwrite 0a'] + mid + ['resume'] + rep + ['tick', 'tick'] + rep + ['tick', 'tick', 'peerread'])
+                    cases.append(pre + ['peerwrite 0a', 'suspend', 'resume', 'suspend', 'resume'] + mid + rep + rep + ['tick', 'tick', 'peerread'])
+        for X, Y in (('A', 'B'), ('B', 'A')):
+            for rx in ('%s.resume' % Y, '%s.resume & %s.suspend & %s.resume' % (Y, Y, Y), '%s.suspend & %s.resume' % (Y, Y)):
+                for m in ('i', 'io'):
+                    cases.append(['@two', 'A.peerwrite 11', 'B.peerwrite 22', '%s.suspend' % Y, 'react %s.onRead %s' % (X, rx),
+                                  'evs %s:%s,%s:%s full full' % (X, m, Y, m), 'tick full full', 'evs A:i,B:i full full', 'tick', 'tick',
+                                  'evs B:i,A:i full full', 'tick', 'tick', 'A.peerread', 'B.peerread'])
+        return Stream('resumed', cases, exhaustive=True, note='after resume() a report of unread input leads to onRead (suspend/resume sequences x backlog x kind of report)')
 
     def gen_boundary(self, rng):
         seq = Seq()
@@ -601,8 +775,10 @@ class C13(Check):
     def streams(self, tier, rng):
         thorough = tier == 'thorough'
         out = [self.gen_write_matrix(thorough), self.gen_mask_matrix(thorough), self.gen_all_short(thorough),
-               self.gen_starve(rng, thorough), self.gen_boundary(rng), self.gen_two_round(thorough),
-               self.gen_two_histories(rng, 4000 if thorough else 1200, 0.3)]
+               self.gen_starve(rng, thorough), self.gen_boundary(rng), self.gen_resumed(thorough), self.gen_two_round(thorough),
+               self.gen_multi_round(thorough),
+               self.gen_two_histories(rng, 4000 if thorough else 1000, 0.3),
+               self.gen_multi_histories(rng, 3000 if thorough else 800, 0.3)]
         out.append(self.gen_histories(rng, 8000 if thorough else 2500, 0.0, 0.04, 'benign-histories',
                                       'send outcomes would-block / partial / full only (the property\'s quantifier), partial counts aimed at 1, n-1, n, n+1'))
         out.append(self.gen_histories(rng, 4000 if thorough else 1200, 0.5, 0.05, 'faulty-histories',
